@@ -215,18 +215,26 @@ def c_out(r):
     return None
 
 
-def c_case(case, obs):
-    """Coq term of one case, or None if the observation lies outside what the model can represent."""
+def c_parts(case, obs):
+    """Coq sub-terms of one case, or None if the observation lies outside what the model can represent."""
     n = lc.span_len(case['span'])
-    tbl, ins = lc.c_tables(obs.get('pd', []))
     out = c_out(obs['out'])
     byl = [c_out(r) for r in obs['bylabel']]
     if out is None or any(b is None for b in byl) or not _intlist(obs['after']) or not _intlist(obs['other']):
         return None
-    return '(mkLCase %s %s %s %s %s %s (mkLObs %s %s %s))' % (
-        lc.c_span(case['span']), tbl, ins,
-        lib.clist(lib.cZ(10 + i) for i in range(n)), lib.clist(lib.cZ(50 + i) for i in range(n)),
-        c_op(case['op']), out, lib.clist(lib.cZ(x) for x in obs['after']), lib.clist(byl))
+    return {'span': lc.c_span(case['span']),
+            'data': lib.clist(lib.cZ(10 + i) for i in range(n)), 'other': lib.clist(lib.cZ(50 + i) for i in range(n)),
+            'bl0': lib.clist('(Ret (RScalar %s))' % lib.cZ(10 + i) for i in range(n)),
+            'op': c_op(case['op']), 'out': out, 'after': lib.clist(lib.cZ(x) for x in obs['after']), 'byl': lib.clist(byl)}
+
+
+def c_case(case, obs):
+    """Coq term of one case (self-contained), or None."""
+    t = c_parts(case, obs)
+    if t is None:
+        return None
+    tbl, ins = lc.c_tables(obs.get('pd', []))
+    return '(mkLCase %s %s %s %s %s %s (mkLObs %s %s %s))' % (t['span'], tbl, ins, t['data'], t['other'], t['op'], t['out'], t['after'], t['byl'])
 
 
 def pd_spec_broken(case, obs):
@@ -249,9 +257,15 @@ def pd_spec_broken(case, obs):
     return None
 
 
+GROUP = 300          # cases per group (one `let`-bound span / tables / data per group), five groups per Coq file
+
+
 def correspond(cases, obs, tag, tier):
+    """Cases on the same span share its term, its (merged) pandas tables and its data through `let` bindings: Coq elaborates each
+    of them once per group instead of once per case.  The fast pass reports groups with a disagreement; their cases are then
+    re-run one by one (self-contained terms) so that the indices returned are exact."""
     lc.reset_strings()
-    items, idx, bad, errors = [], [], [], []
+    bad, groups, order = [], {}, []
     for i, (c, o) in enumerate(zip(cases, obs)):
         if o.get('timeout'):
             bad.append(i)
@@ -262,14 +276,45 @@ def correspond(cases, obs, tag, tier):
         if lc.unrepresentable(o.get('pd', [])):
             bad.append(i)
             continue
-        t = c_case(c, o)
+        t = c_parts(c, o)
         if t is None:
             bad.append(i)           # an observation the model cannot even express (e.g. a 2-D result)
             continue
-        items.append(t)
-        idx.append(i)
-    b, errors = lib.run_coq_cases(tag, PREAMBLE + lc.string_table(), items, 'lbad_indices 0%nat cs', shard=600)
-    return sorted(bad + [idx[k] for k in b]), errors
+        key = lib.jhash(c['span'])
+        if key not in groups:
+            groups[key] = []
+            order.append(key)
+        groups[key].append((i, t, o.get('pd', [])))
+    items, members = [], []
+    for key in order:
+        lst = groups[key]
+        merged, seen = [], set()
+        for _, _, pd in lst:                      # same span => same answer for the same label: merge the recorded tables
+            for rec in pd:
+                r = repr(rec[0])
+                if r not in seen:
+                    seen.add(r)
+                    merged.append(rec)
+        tbl, ins = lc.c_tables(merged)
+        t0 = lst[0][1]
+        for k in range(0, len(lst), GROUP):
+            chunk = lst[k:k + GROUP]
+            terms = ['(mkLCase sp tb ins d o %s (mkLObs %s %s %s))' % (t['op'], t['out'], 'd' if t['after'] == t['data'] else t['after'],
+                                                                     'bl' if t['byl'] == t['bl0'] else t['byl']) for _, t, _ in chunk]
+            items.append('(let sp := %s in let tb : list (label * loc) := %s in let ins : list (label * bool) := %s in let d : list Z := %s in '
+                         'let o : list Z := %s in let bl : list (outcome (rd Z)) := %s in\n [%s])'
+                         % (t0['span'], tbl, ins, t0['data'], t0['other'], t0['bl0'], ';\n  '.join(terms)))
+            members.append([i for i, _, _ in chunk])
+    pre = PREAMBLE + lc.string_table()
+    b, errors = lib.run_coq_cases(tag, pre, items, 'gbad_indices 0%nat cs', shard=5)
+    if errors:
+        return sorted(bad), errors
+    suspects = [i for g in b for i in members[g]]
+    if suspects:
+        terms = [c_case(cases[i], obs[i]) for i in suspects]
+        b2, errors = lib.run_coq_cases(tag + 'x', pre, terms, 'lbad_indices 0%nat cs', shard=300)
+        bad += [suspects[k] for k in b2]
+    return sorted(bad), errors
 
 
 def explain(case, obs):
